@@ -175,7 +175,122 @@ def extra_checks(tier, seed):
     else:
         out.append(('async_suspending_on_final', True, detail, {}))
     out.append(flat_stream(tier, seed))
+    out.append(async_flat_reentrant_stream(tier, seed))
     return out
+
+
+def impl_async_unqueued(case):
+    """an unqueued flat asyncio machine whose callbacks await triggers of the models: the nested event is processed
+    inside the awaiting callback; payload numbering of the re-entrant engine (2000 + 8 * position + k)"""
+    import asyncio
+    import flat
+    flat._import_transitions()
+    import transitions.extensions as ext
+    world = flat.World(case['env'], case['machine']['send'])
+    world.state_of = flat.state_int
+    models = [flat.new_model(k) for k, _ in enumerate(case['models'])]
+    for (k, _), mod in zip(case['models'], models):
+        world.model_ids[id(mod)] = k
+    base = world.recorder
+    world.perform_all = lambda acts, mypos: setattr(world, '_pending', (list(acts), mypos))
+
+    def arecorder(slot, cb, model_of_call=None):
+        inner = base(slot, cb, model_of_call)
+
+        def rec(*a, **k):
+            world._pending = None
+            exc = None
+            r = None
+            try:
+                r = inner(*a, **k)
+            except BaseException as ex:  # noqa — raised after the actions, as in the model
+                exc = ex
+            pend = world._pending
+            if not pend:
+                if exc is not None:
+                    raise exc
+                return r
+
+            async def later():
+                acts, mypos = pend
+                for kk, act in enumerate(acts):
+                    if act[0] == 0:
+                        tok = flat.Token(2000 + 8 * mypos + kk)
+                        await models[act[1]].trigger('e%d' % act[2], tok, k=tok)
+                if exc is not None:
+                    raise exc
+                return r
+            return later()
+        rec.__name__ = inner.__name__
+        return rec
+    world.recorder = arecorder
+    loop = asyncio.new_event_loop()
+    asyncio.set_event_loop(loop)
+    try:
+        c2 = dict(case)
+        c2['init'] = case['models'][0][1]
+        machine, _ = flat.build_machine(c2, world, cls=getattr(ext, case['acls']), models=models,
+                                        extra_kwargs=dict(queued=False, **flat.class_kwargs(case['acls'])))
+        for (k, s0), mod in zip(case['models'], models):
+            machine.set_state('s%d' % s0, mod)
+        out = []
+        for (m, e, a) in case['history']:
+            world.items = []
+            tok = flat.Token(a)
+            try:
+                r = loop.run_until_complete(models[m].trigger('e%d' % e, tok, k=tok))
+                res = [0, bool(r)]
+            except BaseException as ex:  # noqa
+                res = [1, flat.classify_exc(ex)]
+            out.append([world.items, res, [[k, flat.state_int(mod)] for (k, _), mod in zip(case['models'], models)],
+                        [world.model_ids[id(x)] for x in machine.models]])
+        return [2, out]
+    except BaseException as ex:  # noqa
+        return dict(harness_error='%s: %s' % (type(ex).__name__, ex))
+    finally:
+        loop.close()
+
+
+def async_flat_reentrant_stream(tier, seed):
+    """flat asyncio machines WITHOUT a queue whose callbacks await further triggers (processed inside the callback):
+    most states final, machine-level on_final callbacks; callback lists trimmed to one entry; against the re-entrant
+    flat engine Reent.v - on_final must fire for the state ENTERED by each transition, once, whatever a nested
+    event did to the model in between"""
+    import c05
+    import flat
+    import framework as F
+    n = 300 if tier == 'quick' else 8000
+    cases = []
+    for i in range(n):
+        rng = random.Random('C18r-%d-%d' % (seed, i))
+        c = c05.gen(rng, 3 * i + 2, tier)
+        flat.trim_flat(c)
+        for s, d in c['machine']['states']:
+            d['final'] = rng.random() < 0.6
+        if not c['machine']['on_final']:
+            c['machine']['on_final'] = [5297]
+        c['env']['bypos'] = {p: (r[0], None, [a for a in r[2] if a[0] == 0]) for p, r in c['env']['bypos'].items()}
+        c['acls'] = ['AsyncMachine', 'AsyncGraphMachine'][i % 2]
+        c['cls'] = 'Machine'
+        cases.append(c)
+    mo = F.run_model(c05.KIND, [c05.enc(c) for c in cases])
+    io = F.run_impl('c18', 'impl_async_unqueued', cases)
+    bad = []
+    fired = 0
+    for c, m, i in zip(cases, mo, io):
+        mm = c05.canon(c, m)
+        if isinstance(mm, list) and any(st[1] == [1, [4, 99]] for st in mm[1] if isinstance(st, list)):
+            continue          # out of fuel in the model
+        if isinstance(mm, list):
+            fired += sum(1 for st in mm[1] for it in st[0] if it[0] == 8)
+        if mm != i:
+            bad.append((c, mm, i))
+    detail = dict(cases=len(cases), disagreements=len(bad), on_final_items=fired)
+    if bad:
+        c, m, i = bad[0]
+        return ('async_flat_reentrant_on_final', False, detail,
+                dict(kind='counterexample', stream='unqueued flat asyncio machine, callbacks awaiting triggers', case=c, model_obs=m, impl_obs=i))
+    return ('async_flat_reentrant_on_final', True, detail, {})
 
 
 def flat_stream(tier, seed):
